@@ -2,7 +2,7 @@
    whoever holds the output lock can always run on to its release, and a Serve
    that has left its loop can always run on to its return (nothing it waits
    for is held forever). *)
-From XV Require Import lib.Bytes lib.Lts gen.SessClose C10.Model C10.Inv C10.Proofs C10.Closers C10.InLock.
+From XV Require Import lib.Bytes lib.Lts gen.SessClose C10.Model C10.Inv C10.Proofs C10.Closers C10.InLock C10.StateLock.
 
 (* ---- the holder of the output lock runs to its release ---- *)
 
@@ -29,127 +29,124 @@ Proof. unfold mu. cbn. lia. Qed.
 
 Definition others_same (s s' : state) (j : nat) : Prop := forall i, i <> j -> s_a s' i = s_a s i.
 
-Lemma holder_step : forall s j, INV s -> holds s j = true ->
+Lemma gate_open : forall i o og, o_sl og = None -> o_rdy og = true -> gate i o og = true.
+Proof. intros i o og H1 H2. unfold gate, sl_ok. rewrite H1, H2, !orb_true_r. reflexivity. Qed.
+
+Lemma o_mark_keeps o : o_lock (o_mark o) = o_lock o /\ o_sl (o_mark o) = o_sl o /\ o_rdy (o_mark o) = o_rdy o.
+Proof. unfold o_mark. destruct (o_cl o); auto. Qed.
+
+Lemma o_writetag_keeps o : o_lock (o_writetag o) = o_lock o /\ o_sl (o_writetag o) = o_sl o /\ o_rdy (o_writetag o) = o_rdy o.
+Proof. unfold o_writetag. destruct (o_pend o); auto. Qed.
+
+(* the peer is reading and nobody holds the state mutex *)
+Definition flowing (s : state) : Prop := o_sl (s_o s) = None /\ o_rdy (s_o s) = true.
+
+Lemma holder_step : forall s j, INV s -> holds s j = true -> flowing s ->
   exists s', step s j = Some s' /\ others_same s s' j /\
-    (i_lk (s_i s') = true -> i_lk (s_i s) = true) /\
+    (i_lk (s_i s') = true -> i_lk (s_i s) = true) /\ flowing s' /\
     (o_lock (s_o s') = None \/
      (holds s' j = true /\ mu (a_code (s_a s' j)) < mu (a_code (s_a s j)))).
 Proof.
-  intros s j [_ Ha] Hh. destruct (Ha j) as [Hsafe _]. rewrite Hh in Hsafe.
+  intros s j [_ Ha] Hh [Hsl Hrdy]. destruct (Ha j) as [Hsafe _]. rewrite Hh in Hsafe.
   pose proof (holds_lock s j Hh) as Hl.
   unfold step. destruct (a_code (s_a s j)) as [|o k] eqn:Hcode; [discriminate Hsafe|].
+  rewrite (gate_open j o (s_o s) Hsl Hrdy).
   assert (Hoth : forall a' og ig, others_same s (mkS og ig (upd (s_a s) j a')) j).
   { intros a' og ig i Hn. cbn. apply upd_other. exact Hn. }
   assert (Hhold : forall a' og ig, o_lock og = Some j -> holds (mkS og ig (upd (s_a s) j a')) j = true).
   { intros a' og ig E. unfold holds. cbn. rewrite E. apply Nat.eqb_refl. }
+  destruct (o_mark_keeps (s_o s)) as (M1 & M2 & M3). destruct (o_writetag_keeps (s_o s)) as (W1 & W2 & W3).
+  pose proof (mu_skip k) as Hskip. pose proof (mu_tail OChk k) as Htl. pose proof (mu_tail OTest k) as Htl2.
   destruct o; cbn [safe] in Hsafe; try discriminate Hsafe; cbn [exec];
-    try (eexists; split; [reflexivity|]; split; [apply Hoth|]; split; [cbn; auto|];
-         right; split; [apply Hhold; cbn; rewrite ?o_close_lock; exact Hl|];
-         cbn [s_a]; rewrite upd_same; cbn [a_code set_code set_chk set_e set_res]; apply mu_tail).
-  - (* OUnlock *)
-    eexists. split; [reflexivity|]. split; [apply Hoth|]. split; [cbn; auto|]. left. reflexivity.
-  - (* OChk *)
-    destruct (o_cl (s_o s)).
-    + eexists. split; [reflexivity|]. split; [apply Hoth|]. split; [cbn; auto|].
-      right. split; [apply Hhold; exact Hl|]. cbn [s_a]. rewrite upd_same. cbn [a_code set_code set_e set_chk set_res].
-      pose proof (mu_skip k). pose proof (mu_tail OChk k). lia.
-    + eexists. split; [reflexivity|]. split; [apply Hoth|]. split; [cbn; auto|].
-      right. split; [apply Hhold; exact Hl|]. cbn [s_a]. rewrite upd_same. cbn [a_code set_code set_e set_chk set_res]. apply mu_tail.
-  - (* OGEmit *)
-    destruct (o_cl (s_o s)); eexists; (split; [reflexivity|]); (split; [apply Hoth|]); (split; [cbn; auto|]);
-      right; (split; [apply Hhold; exact Hl|]); cbn [s_a]; rewrite upd_same;
-      unfold first_err; try destruct (a_e (set_code (s_a s j) k)); cbn [a_code set_code set_e set_chk set_res]; apply mu_tail.
-  - (* OGFlush *)
-    destruct (o_cl (s_o s)); eexists; (split; [reflexivity|]); (split; [apply Hoth|]); (split; [cbn; auto|]);
-      right; (split; [apply Hhold; exact Hl|]); cbn [s_a]; rewrite upd_same;
-      unfold first_err; try destruct (a_e (set_code (s_a s j) k)); cbn [a_code set_code set_e set_chk set_res]; apply mu_tail.
-  - (* OSendErrBody *)
-    destruct (o_cl (s_o s)); eexists; (split; [reflexivity|]); (split; [apply Hoth|]); (split; [cbn; auto|]);
-      right; (split; [apply Hhold; cbn; rewrite ?o_close_lock; exact Hl|]); cbn [s_a]; rewrite upd_same; cbn [a_code set_code set_e set_chk set_res]; apply mu_tail.
-  - (* ORelIn *)
-    eexists. split; [reflexivity|]. split; [apply Hoth|]. split; [cbn; discriminate|].
-    right. split; [apply Hhold; exact Hl|]. cbn [s_a]. rewrite upd_same. cbn [a_code set_code set_e set_chk set_res]. apply mu_tail.
-  - (* OHEmit *)
-    pose proof (mu_hemit n fail k).
-    destruct (o_cl (s_o s)); eexists; (split; [reflexivity|]); (split; [apply Hoth|]); (split; [cbn; auto|]);
-      right; (split; [apply Hhold; exact Hl|]); cbn [s_a]; rewrite upd_same; cbn [a_code set_code].
-    + unfold mu at 1. cbn. lia.
-    + destruct fail; unfold mu at 1; cbn; lia.
+    try match goal with |- context [if o_cl (s_o s) then _ else _] => destruct (o_cl (s_o s)) end;
+    try match goal with |- context [first_err] => unfold first_err; destruct (a_e (set_code (s_a s j) k)) end;
+    try (eexists; split; [reflexivity|]; split; [apply Hoth|];
+         split; [cbn; auto; try discriminate|];
+         split; [split; cbn [s_o o_sl o_rdy o_emit o_flush o_setlock]; congruence|];
+         first [ left; reflexivity
+               | right; split; [apply Hhold; cbn [o_lock o_emit o_flush]; congruence|];
+                 cbn [s_a]; rewrite upd_same; cbn [a_code set_code set_chk set_e set_res];
+                 first [apply mu_tail | lia
+                       | pose proof (mu_hemit n fail k); unfold mu at 1; cbn; lia
+                       | pose proof (mu_hemit n fail k); destruct fail; unfold mu at 1; cbn; lia ] ]).
 Qed.
 
-Lemma holder_releases : forall m s j, mu (a_code (s_a s j)) <= m -> INV s -> holds s j = true ->
+Lemma holder_releases : forall m s j, mu (a_code (s_a s j)) <= m -> INV s -> holds s j = true -> flowing s ->
   exists tr s', run step s tr = Some s' /\ o_lock (s_o s') = None /\ others_same s s' j /\
-    (i_lk (s_i s') = true -> i_lk (s_i s) = true).
+    (i_lk (s_i s') = true -> i_lk (s_i s) = true) /\ flowing s'.
 Proof.
-  induction m as [|m IH]; intros s j Hm HI Hh.
-  - destruct (holder_step s j HI Hh) as (s' & Hs & Ho & Hlk & [Hn|[_ Hlt]]); [|lia].
+  induction m as [|m IH]; intros s j Hm HI Hh Hf.
+  - destruct (holder_step s j HI Hh Hf) as (s' & Hs & Ho & Hlk & Hf' & [Hn|[_ Hlt]]); [|lia].
     exists [j], s'. cbn [run]. rewrite Hs. auto.
-  - destruct (holder_step s j HI Hh) as (s' & Hs & Ho & Hlk & [Hn|[Hh' Hlt]]).
+  - destruct (holder_step s j HI Hh Hf) as (s' & Hs & Ho & Hlk & Hf' & [Hn|[Hh' Hlt]]).
     + exists [j], s'. cbn [run]. rewrite Hs. auto.
-    + destruct (IH s' j ltac:(lia) (INV_step s j s' HI Hs) Hh') as (tr & s2 & Hr & Hn & Ho2 & Hlk2).
+    + destruct (IH s' j ltac:(lia) (INV_step s j s' HI Hs) Hh' Hf') as (tr & s2 & Hr & Hn & Ho2 & Hlk2 & Hf2).
       exists (j :: tr), s2. cbn [run]. rewrite Hs. split; [exact Hr|]. split; [exact Hn|].
-      split; [intros i Hi; rewrite (Ho2 i Hi); exact (Ho i Hi)|auto].
+      split; [intros i Hi; rewrite (Ho2 i Hi); exact (Ho i Hi)|]. split; [auto|exact Hf2].
 Qed.
 
 (* ---- Serve, once out of its loop, runs to its return ---- *)
 
 Definition lock_expect (n : nat) : bool :=
-  (Nat.leb 2 n && Nat.leb n 4) || (Nat.leb 9 n && Nat.leb n 11).
+  (Nat.leb 2 n && Nat.leb n 7) || (Nat.leb 12 n && Nat.leb n 15).
 
-Lemma exit_holds : forall n h c, n <= 13 -> safe h c (skipn n senderr_code) = true -> h = lock_expect n.
+Lemma exit_holds : forall n h c, n <= 17 -> safe h c (skipn n senderr_code) = true -> h = lock_expect n.
 Proof.
   intros n h c Hn H.
-  do 14 (destruct n as [|n]; [destruct h; cbn in H; try discriminate H; reflexivity|]).
+  do 18 (destruct n as [|n]; [destruct h; cbn in H; try discriminate H; reflexivity|]).
   lia.
 Qed.
 
 Lemma exit_owes : forall n, owes (skipn n senderr_code) = false.
-Proof. intro n. do 14 (destruct n as [|n]; [reflexivity|]). reflexivity. Qed.
+Proof. intro n. do 18 (destruct n as [|n]; [reflexivity|]). reflexivity. Qed.
 
-(* one step of the exit sequence is enabled when nobody else holds the output
-   lock and the input lock is free *)
+(* one step of the exit sequence is enabled when the peer is reading, nobody
+   else holds the output lock and the input lock is free *)
 Lemma exit_enabled : forall n s i,
-  a_code (s_a s i) = skipn n senderr_code -> n < 13 ->
+  a_code (s_a s i) = skipn n senderr_code -> n < 17 ->
   (o_lock (s_o s) = None \/ o_lock (s_o s) = Some i) -> holds s i = lock_expect n ->
-  i_lk (s_i s) = false ->
+  i_lk (s_i s) = false -> flowing s ->
   exists s', step s i = Some s' /\
-    (o_lock (s_o s') = None \/ o_lock (s_o s') = Some i) /\ i_lk (s_i s') = false.
+    (o_lock (s_o s') = None \/ o_lock (s_o s') = Some i) /\ i_lk (s_i s') = false /\ flowing s'.
 Proof.
-  intros n s i Hc Hn Hl Hh Hlk. unfold step. rewrite Hc.
+  intros n s i Hc Hn Hl Hh Hlk [Hsl Hrdy]. unfold step. rewrite Hc.
   assert (Hfree : lock_expect n = false -> o_lock (s_o s) = None).
   { intro E. rewrite E in Hh. destruct Hl as [Hl|Hl]; [exact Hl|].
     unfold holds in Hh. rewrite Hl, Nat.eqb_refl in Hh. discriminate. }
-  do 13 (destruct n as [|n];
-    [ cbn [skipn senderr_code shutdown_code app exec];
+  destruct (o_mark_keeps (s_o s)) as (M1 & M2 & M3). destruct (o_writetag_keeps (s_o s)) as (W1 & W2 & W3).
+  do 17 (destruct n as [|n];
+    [ cbn [skipn senderr_code shutdown_code close_code app];
+      rewrite (gate_open i _ (s_o s) Hsl Hrdy); cbn [exec];
       try rewrite (Hfree eq_refl); try rewrite Hlk;
       try (destruct (o_cl (s_o s)));
-      eexists; (split; [reflexivity|]); cbn; rewrite ?o_close_lock; auto
+      eexists; (split; [reflexivity|]); unfold flowing; cbn [s_o s_i o_lock o_sl o_rdy o_emit o_setlock i_lk i_closeinput];
+      rewrite ?M1, ?M2, ?M3, ?W1, ?W2, ?W3; auto
     | ]).
   lia.
 Qed.
 
 Lemma exit_runs : forall m n s i,
-  13 - n <= m -> n <= 13 -> INV s -> exit_at n (s_a s i) (s_o s) (s_i s) ->
-  (o_lock (s_o s) = None \/ o_lock (s_o s) = Some i) -> i_lk (s_i s) = false ->
+  17 - n <= m -> n <= 17 -> INV s -> exit_at n (s_a s i) (s_o s) (s_i s) ->
+  (o_lock (s_o s) = None \/ o_lock (s_o s) = Some i) -> i_lk (s_i s) = false -> flowing s ->
   exists tr s' e, run step s tr = Some s' /\ a_res (s_a s' i) = Some e.
 Proof.
-  induction m as [|m IH]; intros n s i Hm Hn HI He Hl Hlk.
-  - assert (n = 13) by lia. subst n. destruct He as (_ & _ & _ & _ & H5).
+  induction m as [|m IH]; intros n s i Hm Hn HI He Hl Hlk Hf.
+  - assert (n = 17) by lia. subst n. destruct He as (_ & _ & _ & _ & _ & H5).
     exists [], s, (a_e (s_a s i)). split; [reflexivity|exact (H5 eq_refl)].
-  - destruct (Nat.eq_dec n 13) as [->|Hne].
-    + destruct He as (_ & _ & _ & _ & H5).
+  - destruct (Nat.eq_dec n 17) as [->|Hne].
+    + destruct He as (_ & _ & _ & _ & _ & H5).
       exists [], s, (a_e (s_a s i)). split; [reflexivity|exact (H5 eq_refl)].
-    + assert (Hlt : n < 13) by lia.
+    + assert (Hlt : n < 17) by lia.
       pose proof He as (Hc & _).
       pose proof HI as [_ Ha]. destruct (Ha i) as [Hsafe _]. rewrite Hc in Hsafe.
       pose proof (exit_holds n _ _ Hn Hsafe) as Hh.
-      destruct (exit_enabled n s i Hc Hlt Hl Hh Hlk) as (s' & Hs & Hl' & Hlk').
+      destruct (exit_enabled n s i Hc Hlt Hl Hh Hlk Hf) as (s' & Hs & Hl' & Hlk' & Hf').
       pose proof Hs as Hinv. apply step_inv in Hinv.
-      destruct Hinv as (o & k & og & ig & a' & Hcode & Hex & E).
-      destruct (exit_step n i _ _ _ o k og ig a' He Hlt Hcode Hex) as (He' & _ & _).
-      assert (He2 : exit_at (S n) (s_a s' i) (s_o s') (s_i s')).
+      destruct Hinv as (o & k & og & ig & a' & Hcode & Hgate & Hex & E).
+      destruct (exit_step n i _ _ _ o k og ig a' He Hlt Hcode Hex) as (n' & Hn' & He' & _ & _).
+      assert (He2 : exit_at n' (s_a s' i) (s_o s') (s_i s')).
       { rewrite E. cbn [s_a s_o s_i]. rewrite upd_same. exact He'. }
-      destruct (IH (S n) s' i ltac:(lia) ltac:(lia) (INV_step s i s' HI Hs) He2 Hl' Hlk') as (tr & s2 & e & Hr & Hres).
+      destruct (IH n' s' i ltac:(lia) ltac:(lia) (INV_step s i s' HI Hs) He2 Hl' Hlk' Hf') as (tr & s2 & e & Hr & Hres).
       exists (i :: tr), s2, e. cbn [run]. rewrite Hs. split; assumption.
 Qed.
 
@@ -167,40 +164,41 @@ Proof.
   - rewrite (quiet_in_owes _ (Hns j (Honly j Hn))) in Hj. discriminate.
 Qed.
 
-(* From every reachable state in which the (only) Serve has left its loop there
-   is a continuation in which it returns: first whoever holds the output lock
-   runs to its release, then Serve runs alone. *)
+(* From every reachable state in which the (only) Serve has left its loop, and
+   the peer is reading, there is a continuation in which it returns: first
+   whoever holds the output lock runs to its release, then Serve runs alone. *)
 Theorem serve_can_return : forall ds ks tr s i,
   run step (init ds ks) tr = Some s ->
   a_role (s_a s i) = RServe -> (forall j, j <> i -> a_role (s_a s j) <> RServe) ->
-  loopish (a_code (s_a s i)) = false ->
+  loopish (a_code (s_a s i)) = false -> o_rdy (s_o s) = true ->
   exists tr' s' e, run step s tr' = Some s' /\ a_res (s_a s' i) = Some e.
 Proof.
-  intros ds ks tr s i Hr Hrole Honly Hloop.
+  intros ds ks tr s i Hr Hrole Honly Hloop Hrdy.
   pose proof (INV_run ds ks tr s Hr) as HI.
   pose proof (CINV_run ds ks tr s Hr) as [_ Hall].
   pose proof (LK_run ds ks tr s Hr) as HLK.
   pose proof (NS_run ds ks tr s Hr) as HNS.
+  assert (Hf : flowing s) by (split; [exact (state_lock_free ds ks tr s Hr)|exact Hrdy]).
   pose proof (Hall i) as Hi. unfold closer_ok in Hi. rewrite Hrole in Hi.
   destruct Hi as [[Hl _]|(n & Hn & He & _)]; [congruence|].
   pose proof He as (Hc & _).
   pose proof (in_lock_free s i n HLK HNS Honly Hc) as Hlk.
   destruct (o_lock (s_o s)) as [j|] eqn:Hlock.
   - destruct (Nat.eq_dec j i) as [->|Hne].
-    + exact (exit_runs 13 n s i ltac:(lia) Hn HI He (or_intror Hlock) Hlk).
+    + exact (exit_runs 17 n s i ltac:(lia) Hn HI He (or_intror Hlock) Hlk Hf).
     + (* somebody else holds the output lock: let it finish its region *)
       assert (Hh : holds s j = true) by (unfold holds; rewrite Hlock; apply Nat.eqb_refl).
-      destruct (holder_releases _ s j (le_n _) HI Hh) as (tr1 & s1 & Hr1 & Hn1 & Ho1 & Hlk1).
+      destruct (holder_releases _ s j (le_n _) HI Hh Hf) as (tr1 & s1 & Hr1 & Hn1 & Ho1 & Hlk1 & Hf1).
       pose proof (run_INV tr1 s s1 HI Hr1) as HI1.
-      destruct (run_mono tr1 s s1 Hr1) as [Mo Mi].
+      destruct (run_mono tr1 s s1 Hr1) as (Mo & Mi & Mp).
       assert (He1 : exit_at n (s_a s1 i) (s_o s1) (s_i s1)).
-      { rewrite (Ho1 i ltac:(congruence)). exact (exit_at_mono n _ s s1 He Mo Mi). }
+      { rewrite (Ho1 i ltac:(congruence)). exact (exit_at_mono n _ s s1 He Mo Mi Mp). }
       assert (Hlk1' : i_lk (s_i s1) = false).
       { destruct (i_lk (s_i s1)) eqn:E; [|reflexivity]. rewrite (Hlk1 eq_refl) in Hlk. discriminate. }
-      destruct (exit_runs 13 n s1 i ltac:(lia) Hn HI1 He1 (or_introl Hn1) Hlk1') as (tr2 & s2 & e & Hr2 & Hres).
+      destruct (exit_runs 17 n s1 i ltac:(lia) Hn HI1 He1 (or_introl Hn1) Hlk1' Hf1) as (tr2 & s2 & e & Hr2 & Hres).
       exists (tr1 ++ tr2), s2, e. split; [|exact Hres].
       rewrite run_app, Hr1. exact Hr2.
-  - exact (exit_runs 13 n s i ltac:(lia) Hn HI He (or_introl Hlock) Hlk).
+  - exact (exit_runs 17 n s i ltac:(lia) Hn HI He (or_introl Hlock) Hlk Hf).
 Qed.
 
 (* ---- Serve leaves its loop when the peer closes, sends a stream error or
@@ -215,6 +213,7 @@ Definition terminal (ev : pev) : option (err * cause * bool) :=
   end.
 
 Theorem serve_leaves_loop : forall s i k e c via,
+  o_sl (s_o s) = None ->
   a_code (s_a s i) = OServeRead :: k ->
   (i_rdexp (s_i s) = true /\ (e, c, via) = (ETimeout, CTimeout, true) \/
    i_rdexp (s_i s) = false /\ exists ev q, i_q (s_i s) = ev :: q /\ terminal ev = Some (e, c, via)) ->
@@ -222,13 +221,33 @@ Theorem serve_leaves_loop : forall s i k e c via,
     a_code (s_a s' i) = (if via then senderr_code else shutdown_code) /\
     a_e (s_a s' i) = e /\ a_cause (s_a s' i) = c /\ i_lk (s_i s') = false.
 Proof.
-  intros s i k e c via Hc H. cbn [run]. unfold step at 1. rewrite Hc. cbn [exec].
+  intros s i k e c via Hsl Hc H. cbn [run]. unfold step at 1. rewrite Hc.
+  unfold gate at 1, sl_ok. rewrite Hsl. cbn [reads_state writes_conn negb orb andb]. cbn [exec].
+  assert (T : forall og ig (f : nat -> actor) a,
+            a_code a = [ORelIn; OExit e c via] ->
+            exists s', (match step (mkS og ig (upd f i a)) i with
+                        | Some s1 => match step s1 i with Some s2 => Some s2 | None => None end
+                        | None => None end) = Some s' /\
+              a_code (s_a s' i) = (if via then senderr_code else shutdown_code) /\
+              a_e (s_a s' i) = e /\ a_cause (s_a s' i) = c /\ i_lk (s_i s') = false).
+  { intros og ig f a Ha. unfold step at 1. cbn [s_a s_o s_i]. rewrite upd_same, Ha.
+    cbn [gate reads_state writes_conn negb orb andb exec].
+    unfold step at 1. cbn [s_a s_o s_i]. rewrite upd_same.
+    cbn [a_code set_code gate reads_state writes_conn negb orb andb exec].
+    eexists. split; [reflexivity|]. cbn [s_a s_i]. rewrite upd_same. cbn. auto. }
   destruct H as [[Hx E]|[Hx (ev & q & Hq & Ht)]]; rewrite Hx.
-  - injection E as -> -> ->. unfold step at 1. cbn [s_a]. rewrite upd_same. cbn [a_code set_code exec].
-    unfold step at 1. cbn [s_a]. rewrite upd_same. cbn [a_code set_code exec].
-    eexists. split; [reflexivity|]. cbn [s_a s_i]. rewrite upd_same. cbn. auto.
-  - rewrite Hq. destruct ev; cbn in Ht; try discriminate Ht; injection Ht as <- <- <-;
-      unfold step at 1; cbn [s_a]; rewrite upd_same; cbn [a_code set_code exec];
-      unfold step at 1; cbn [s_a]; rewrite upd_same; cbn [a_code set_code exec];
-      (eexists; split; [reflexivity|]); cbn [s_a s_i]; rewrite upd_same; cbn; auto.
+  - injection E as -> -> ->.
+    destruct (T (s_o s) (s_i s) (s_a s) (set_code (s_a s i) [ORelIn; OExit ETimeout CTimeout true]) eq_refl) as (s' & Hs & R).
+    exists s'. split; [|exact R].
+    destruct (step _ i) as [s1|]; [|discriminate]. destruct (step s1 i) as [s2|]; [exact Hs|discriminate].
+  - rewrite Hq. destruct ev; cbn in Ht; try discriminate Ht; injection Ht as <- <- <-.
+    + destruct (T (s_o s) (i_setq (s_i s) q) (s_a s) (set_code (s_a s i) [ORelIn; OExit ENil CPeerClose false]) eq_refl) as (s' & Hs & R).
+      exists s'. split; [|exact R].
+      destruct (step _ i) as [s1|]; [|discriminate]. destruct (step s1 i) as [s2|]; [exact Hs|discriminate].
+    + destruct (T (s_o s) (i_setq (s_i s) q) (s_a s) (set_code (s_a s i) [ORelIn; OExit EStream CPeerErr true]) eq_refl) as (s' & Hs & R).
+      exists s'. split; [|exact R].
+      destruct (step _ i) as [s1|]; [|discriminate]. destruct (step s1 i) as [s2|]; [exact Hs|discriminate].
+    + destruct (T (s_o s) (i_setq (s_i s) q) (s_a s) (set_code (s_a s i) [ORelIn; OExit EBad CBad true]) eq_refl) as (s' & Hs & R).
+      exists s'. split; [|exact R].
+      destruct (step _ i) as [s1|]; [|discriminate]. destruct (step s1 i) as [s2|]; [exact Hs|discriminate].
 Qed.
